@@ -75,6 +75,9 @@ pub struct Outcome {
     pub capped: Option<String>,
     /// free-form replay hint (e.g. choice list of the failing path)
     pub note: Option<Value>,
+    /// a narrower point (same type as the check's points) that reproduces the violation without the
+    /// explorer; written into the replay file instead of the explored point when present
+    pub replay_point: Option<Value>,
 }
 impl Outcome {
     pub fn new() -> Outcome {
@@ -351,6 +354,12 @@ impl Report {
                 }
             }
         }
+        if let Ok(only) = std::env::var("VERIF_ONLY") {
+            // debugging aid: run a single sub-check (the evidence then says so through per_check)
+            if only != c.name() {
+                return;
+            }
+        }
         let t0 = Instant::now();
         let mut pts = c.points(self.tier);
         let lattice_n = pts.len();
@@ -459,7 +468,8 @@ impl Report {
                     }
                 }
                 if !unknown.is_empty() {
-                    self.unknown.push((c.name().to_string(), serde_json::to_value(p).unwrap(), unknown, o.note.clone()));
+                    let rp = o.replay_point.clone().unwrap_or_else(|| serde_json::to_value(p).unwrap());
+                    self.unknown.push((c.name().to_string(), rp, unknown, o.note.clone()));
                 }
             }
         }
@@ -577,19 +587,21 @@ impl Report {
             // a violation found before a machinery problem is still reported, but the exit code says "do not trust silence"
         }
         if nviol > 0 {
-            let mut tally: BTreeMap<String, u64> = BTreeMap::new();
+            let mut tally: BTreeMap<String, (u64, String)> = BTreeMap::new();
             for (check, _, viols, _) in &self.unknown {
                 for v in viols {
-                    *tally.entry(format!("{} | {} | {} | {}", check, v.subject, v.clause, v.class)).or_insert(0) += 1;
+                    let e = tally.entry(format!("{} | {} | {} | {}", check, v.subject, v.clause, v.class)).or_insert((0, v.detail.clone()));
+                    e.0 += 1;
                 }
             }
-            for (k, n) in &tally {
-                eprintln!("TALLY {:>7}  {}", n, k);
+            for (k, (n, d)) in &tally {
+                let d: String = d.chars().take(300).collect();
+                eprintln!("TALLY {:>7}  {}   e.g. {}", n, k, d);
             }
             let rdir = format!("{}/replays", self.root);
             let _ = std::fs::create_dir_all(&rdir);
             for (i, (check, point, viols, note)) in self.unknown.iter().enumerate() {
-                if i >= 25 {
+                if i >= 10 {
                     println!("... {} further violating points not written out", nviol - i);
                     break;
                 }
@@ -597,7 +609,7 @@ impl Report {
                 let rf = ReplayFile { property: self.id.clone(), check: check.clone(), point: point.clone(), violations: viols.clone(), note: note.clone() };
                 let _ = std::fs::write(&path, serde_json::to_string_pretty(&rf).unwrap());
                 println!("VIOLATION property={} replay={}", self.id, path);
-                for v in viols.iter().take(2) {
+                for v in viols.iter().take(1) {
                     println!("    {} / {} : {}", v.subject, v.clause, v.detail);
                 }
             }
